@@ -22,7 +22,7 @@ import (
 
 func init() {
 	vc.Register(&vc.Check{ID: "C07", Level: "exploration", Run: run, Replay: replay, QuickSec: 170, ThoroSec: 1500,
-		Rule:   "(1) activeauth.ValidateActiveAuthSignature on responses produced by the independent signer: RSA moduli 1024/2048/3072/4096 and 1031/1279/2041 bits (bit length not a multiple of 8) x 5 trailers (SHA-1/224/256/384/512) x chip-chosen M1 {00.., FF.., pattern, ending ..BC, ending ..CC} x challenges {00.., FF.., pattern}; ECDSA on 11 curves x {plain r||s, DER} x challenges, hash by key size => accepted. For genuine cases: every single-bit flip of the signature (quick: all bits for 1024/2048-bit RSA and all EC, every 5th bit above), every single-bit flip of the challenge, the same response under another key of the same size/curve => rejected (invalid by construction). (2) challenge plumbing end to end: Reader.WithAAChallenge(c) => the chip saw exactly c and the evidence nonce is c; Verifier.WithAAChallenge(c') hard-fails iff c' != c for c'=c and all 64 one-bit neighbours, on every call of every history of up to 3 Verify calls {matching evidence, evidence with another nonce, unparseable} on ONE armed Verifier, also when the evidence is otherwise unverifiable (algorithm changed, signature corrupted / oversize, DG15 removed), AA over RSA and ECDSA. distinct_nontrivial = distinct (key, trailer/format, M1 class, challenge, mutation class, verdict)",
+		Rule:   "(1) activeauth.ValidateActiveAuthSignature on responses produced by the independent signer: RSA moduli 1024/2048/3072/4096 and 1031/1279/2041 bits (bit length not a multiple of 8) x 5 trailers (SHA-1/224/256/384/512) x chip-chosen M1 {00.., FF.., pattern, ending ..BC, ending ..CC} x challenges {00.., FF.., pattern}; ECDSA on 11 curves x {plain r||s, DER} x challenges, hash by key size => accepted. For genuine cases: every single-bit flip of the signature (quick: all bits for 1024/2048-bit RSA and all EC, every 5th bit above), every single-bit flip of the challenge, the same response under another key of the same size/curve, RSA: signature + modulus (same width where it fits, and one octet wider) => rejected (invalid by construction). (2) challenge plumbing end to end: Reader.WithAAChallenge(c) => the chip saw exactly c and the evidence nonce is c; Verifier.WithAAChallenge(c') hard-fails iff c' != c for c'=c and all 64 one-bit neighbours, on every call of every history of up to 3 Verify calls {matching evidence, evidence with another nonce, unparseable} on ONE armed Verifier, also when the evidence is otherwise unverifiable (algorithm changed, signature corrupted / oversize, DG15 removed), AA over RSA and ECDSA. distinct_nontrivial = distinct (key, trailer/format, M1 class, challenge, mutation class, verdict)",
 		Assume: []string{"independent ISO/IEC 9796-2 scheme 1 signer and deterministic ECDSA signer of refchip/refpki (self-tested against crypto/rsa, crypto/ecdsa)", "for moduli whose bit length is not a multiple of 8 only the byte-aligned representative is demanded to verify", "signature forgery not searched; ECDSA malleability (r, n-s) is a valid signature and not generated"}})
 }
 
@@ -152,6 +152,20 @@ func build(ac aaCase) (dg15, resp, chal []byte, genuine bool) {
 	case "chalbit":
 		chal = bytes.Clone(chal)
 		chal[ac.Bit/8] ^= 1 << (ac.Bit % 8)
+	case "sig-plus-modulus", "sig-plus-modulus-one-octet-longer":
+		// s + N recovers the same message representative; RSAVP1 (RFC 8017 5.2.2 step 1) makes it invalid
+		if ac.Curve == "" {
+			n := rsaKey(ac.RSABits, ac.KeyIdx).N
+			v := new(big.Int).Add(new(big.Int).SetBytes(resp), n)
+			w := len(resp)
+			if ac.Mut == "sig-plus-modulus-one-octet-longer" {
+				w++
+			}
+			if (v.BitLen()+7)/8 > w {
+				w = (v.BitLen() + 7) / 8
+			}
+			resp = v.FillBytes(make([]byte, w))
+		}
 	}
 	return
 }
@@ -276,6 +290,11 @@ func run(c *vc.Ctx) {
 				ac := base
 				ac.Mut = "otherkey"
 				do(sec2, ac)
+				for _, m := range []string{"sig-plus-modulus", "sig-plus-modulus-one-octet-longer"} {
+					ac := base
+					ac.Mut = m
+					do(sec2, ac)
+				}
 			}
 		}
 	}
